@@ -24,9 +24,9 @@ Process for each change:
  2. Make the change in the worktree. Run the directly relevant test files first, e.g.
       cd {wt} && PYTHONPATH={wt} OMP_NUM_THREADS=1 /venv/bin/python -m pytest -q -p no:cacheprovider -x <test files>
  3. Run the WHOLE suite once for the final version of the change and compare with the baseline list of tests that must pass:
-      cd {wt} && PYTHONPATH={wt} OMP_NUM_THREADS=1 /venv/bin/python -m pytest -q -p no:cacheprovider --timeout=900 --continue-on-collection-errors -n 4 --dist loadfile --junitxml=/tmp/seed/{pid}_junit.xml > /tmp/seed/{pid}_pytest.log 2>&1 ; /venv/bin/python /tmp/seedtools/compare_baseline.py /tmp/seed/{pid}_junit.xml
+      cd {wt} && flock /tmp/seed/suite.lock env PYTHONPATH={wt} OMP_NUM_THREADS=1 /venv/bin/python -m pytest -q -p no:cacheprovider --timeout=900 --continue-on-collection-errors -n 6 --dist loadfile --junitxml=/tmp/seed/{pid}_junit.xml > /tmp/seed/{pid}_pytest.log 2>&1 ; /venv/bin/python /tmp/seedtools/compare_baseline.py /tmp/seed/{pid}_junit.xml
     (takes roughly 10-15 minutes; many tests fail even on the unchanged code — only the 1781 tests listed as stable in /root/.vp/BASELINE.json matter; the compare tool prints `stable_not_passing=0` when all of them still pass. Keep `--dist loadfile`: a few tests depend on file-level order.) If stable tests fail because of your change, make the change subtler.
- 4. Verify the demo: it must exit 1 with the change and exit 0 on the clean tree (use `git stash` / `git checkout -- .` inside the worktree to switch).
+ 4. Verify the demo: it must exit 1 with the change and exit 0 on the clean tree (switch with `git diff > /tmp/seed/{pid}_m.patch; git checkout -- .; ...; git apply /tmp/seed/{pid}_m.patch` inside the worktree — do NOT use `git stash`: the stash is shared between all worktrees of the repository and other agents are working concurrently).
  5. Save the results to {wt}/out/m1/ and {wt}/out/m2/: `patch.diff` (output of `git diff` for that change alone, relative to the worktree HEAD, applying cleanly with `git apply` on a clean checkout), `demo.py`, and `notes.md` (what the change is, which part of the property it breaks, what exactly is needed for it to manifest, which commands you ran and their results, including the stable_not_passing line). Leave the worktree itself clean (git checkout -- .) at the end; the out/ directory is untracked and stays.
 
 Clean up any other files you create under /tmp. Report back a short summary: for m1 and m2 the file/function changed, what it needs to manifest, and the verification results (demo exit codes with/without the change, stable_not_passing). If you cannot find a second change that passes the suite, deliver one and say so.""")
